@@ -62,3 +62,32 @@ def metar_msg_oracle(T=None, msa=None, flag=False, which='layers', **_):
     if msg not in ('NCD', 'NSC') and not MSG.match(msg):
         failed.append('post.C01.grammar')
     return ('return', msg), failed
+
+
+def tmp_seed_oracle(seed=42, **_):
+    """real tmp_seed on an advanced global generator: the state must be restored when the body completes and when it raises"""
+    import numpy as np
+    from ampycloud.utils import utils
+    failed = []
+    saved = np.random.get_state()
+    try:
+        np.random.seed(4242)
+        np.random.random(5)
+        s0 = np.random.get_state()
+        with utils.tmp_seed(int(seed)):
+            np.random.random(3)
+        s1 = np.random.get_state()
+        if not (s0[0] == s1[0] and np.array_equal(s0[1], s1[1]) and s0[2:] == s1[2:]):
+            failed.append('post.restore')
+        np.random.set_state(s0)
+        try:
+            with utils.tmp_seed(int(seed)):
+                raise KeyError('body raises')
+        except KeyError:
+            pass
+        s2 = np.random.get_state()
+        if not (s0[0] == s2[0] and np.array_equal(s0[1], s2[1]) and s0[2:] == s2[2:]):
+            failed.append('post@raise.BodyException.restore')
+    finally:
+        np.random.set_state(saved)
+    return ('return', None), failed
